@@ -25,6 +25,11 @@ CHECKS = {
    "Real Compactor::run_compaction_cycle over real Parquet chunks (rows carry unique ids) on both catalog back ends: one compactor x every single fault position x {before, after}; one/two compactors x every crash point (restart runs a fresh cycle); two compactors x all interleavings within 2 (3) preemptions, x lease expiry (+301 s) anywhere. After EVERY transition: nothing queryable became unqueryable and every listed object exists; at the end: reachable id multiset == original, each once; merged chunk level = max(replaced)+1, levels never decrease.",
    "duplicates tolerated while a compaction is in flight; crash = abort at a quiescent point; the lease-renewal task gets a horizon of 1 request per execution; no state caching (tasks share memory the fingerprint cannot see)",
    "DESIGN.md section 5 C03"),
+ "C04": (ENGINE_C, "exploration",
+   "bounded-exhaustive differential enumeration of the real QueryNode::query against DataFusion over a MemTable of all ingested rows: grammar-generated WHERE clauses x literal forms x SELECT shapes over enumerated chunk layouts, both catalog back ends, statistics-bearing catalogs, compaction and node states; a recording catalog wrapper measures pruning and attributes each mismatch to its cause",
+   "Data sets of <=13 rows at instants on and +-1 ns around now, one hour ago and hour-bucket boundaries (2 metrics, host a/b/NULL); layouts: every chunking of a fixed family (one chunk, one per row in both flush orders, interleaved, straddling, nested, out of order; thorough: every cut into 2-3 contiguous chunks and every 2-chunk assignment of the small sets); Int64 and Timestamp(ns,UTC) columns; in-memory and object-store catalog, with and without true column statistics; L1 compaction before or between queries; warm node, first query of a node, same query twice, adaptive indexing on. Queries: ~60 WHERE templates (comparisons both ways, BETWEEN, =, IN, AND/OR/NOT incl. double negation, holes, redundant and repeated bounds) x bound assignments from a 16-18-point pool x 4 literal forms (integer, TIMESTAMP literal, to_timestamp_nanos, now()-relative), 15 SELECT shapes x 12 label predicates, 31 HAVING / derived-table shapes: 64 k evaluations quick, 4.5 M thorough, each compared with the full-scan answer.",
+   "DataFusion is evaluator and reference (only chunk selection, registration and binding are judged); results compared as multisets of rendered rows; both-reject counts as agreement; frozen clock; chunks written and registered directly with one schema; statistics hand-written (the repository writes none); catalog-cache staleness, one-sided windows, joins, unions, sub-queries and negative timestamps are outside the family; membership in the family is decided by the generator's own interval analysis",
+   "DESIGN.md section 5 C04"),
  "C05": (ENGINE_B, "model_checking",
    "explicit-state search (BFS with deduplication on directory image + reference state) over WAL operation histories executed on the real WriteAheadLog, with crash images derived from directory snapshots; every byte offset of the final crash enumerated",
    "All histories up to depth 3 (quick) / 5 (thorough) over append small/large, truncate_before, persist_flushed_seq, reopen and crash-during-operation (structural cuts) for three segment limits (rotate every entry, two entries per segment, never); from every distinct state every byte offset of a crash during append / truncate / flushed_seq write is followed by reopen-check-append-reopen-check against a reference log: exactly the complete entries, in order, once; sequence numbers above everything acknowledged.",
